@@ -293,12 +293,18 @@ def _(it, a, info):
 
 @model('Result::ok')
 def _(it, a, info):
-    return Some(a[0].fields[0]) if a[0].variant == 'Ok' else NONE()
+    if a[0].variant == 'Ok':
+        return Some(a[0].fields[0])
+    it.drop_value(a[0].fields[0])        # the error value is dropped (it may own resources, e.g. SendError(reader))
+    return NONE()
 
 
 @model('Result::err')
 def _(it, a, info):
-    return Some(a[0].fields[0]) if a[0].variant == 'Err' else NONE()
+    if a[0].variant == 'Err':
+        return Some(a[0].fields[0])
+    it.drop_value(a[0].fields[0])
+    return NONE()
 
 
 @model('Result::map')
